@@ -10,11 +10,11 @@ macro "inv_open" h:ident : tactic => `(tactic|
 
 /-- goal `Inv c <explicit state>`: one `grind` per clause -/
 macro "inv_close" : tactic => `(tactic|
-  (constructor <;> (try simp only [tick, live, advPc, afterNextPc, HoldsTl, HoldsHd, Owns, Held, abs, upd]) <;> grind))
+  (constructor <;> (try simp only [tick, live, advPc, afterNextPc, HoldsTl, HoldsHd, Owns, Held, abs, upd]) <;> (first | assumption | grind)))
 
 /-- diagnosis: leaves the clauses `grind` cannot close -/
 macro "inv_dbg" : tactic => `(tactic|
-  (constructor <;> (try simp only [tick, live, advPc, afterNextPc, HoldsTl, HoldsHd, Owns, Held, abs, upd]) <;> (first | grind | skip)))
+  (constructor <;> (try simp only [tick, live, advPc, afterNextPc, HoldsTl, HoldsHd, Owns, Held, abs, upd]) <;> (first | assumption | grind | skip)))
 
 macro "st_inj" st:ident : tactic => `(tactic|
   ((try simp only [Option.some.injEq, Prod.mk.injEq] at $st:ident); have hst := ($st).1; subst hst))
